@@ -588,7 +588,12 @@ class Series:
         self.vals = list(vals)
 
     def _b(self, o, f):
-        ov = o.vals if isinstance(o, Series) else [o] * len(self.vals)
+        if isinstance(o, ndarray):
+            if o.shape != (len(self.vals),):
+                raise ValueError("operands could not be broadcast together")
+            ov = o.flat
+        else:
+            ov = o.vals if isinstance(o, Series) else [o] * len(self.vals)
         return Series([f(a, b) for a, b in zip(self.vals, ov)])
 
     def __le__(self, o): return self._b(o, lambda a, b: a <= b)
@@ -599,6 +604,12 @@ class Series:
     def __ne__(self, o): return self._b(o, lambda a, b: np._not(np._eq(a, b)))
     def __or__(self, o): return self._b(o, np._or)
     def __and__(self, o): return self._b(o, np._and)
+    __ror__ = __or__
+    __rand__ = __and__
+    def __add__(self, o): return self._b(o, np._add)
+    def __sub__(self, o): return self._b(o, np._sub)
+    def __mul__(self, o): return self._b(o, np._mul)
+    def abs(self): return Series([abs(v) for v in self.vals])
     def __invert__(self): return Series([np._not(v) for v in self.vals])
     __hash__ = None
 
